@@ -73,7 +73,9 @@ where
 
         // `iter.end` moves with `next_back()`: use the range end.
         let elements_left = self.original_len - self.end;
-        let replace_end = self.start + self.replace_with.len();
+        // ExactSizeIterator::len() is only a hint for safe code: it may misreport.
+        let replace_len = self.replace_with.len();
+        let replace_end = self.start + replace_len;
         let new_len = replace_end + elements_left;
 
         // 0. capacity.
@@ -102,24 +104,42 @@ where
             );
         }
 
-        // 3. move replace_with in
+        // 3. move replace_with in (never more than reserved room)
+        let mut written = 0;
         unsafe{
             let type_id = element_typeid(any_vec_ptr);
             let element_size = element_size(any_vec_ptr);
             let mut ptr = element_mut_ptr_at(any_vec_ptr, self.start);
-            while let Some(replace_element) = self.replace_with.next() {
+            while written < replace_len {
+                let replace_element = match self.replace_with.next() {
+                    Some(replace_element) => replace_element,
+                    None => break
+                };
                 assert_types_equal(type_id, replace_element.value_typeid());
                 replace_element.move_into::<
                     <ReplaceIter::Item as AnyValueSizeless>::Type
                 >(ptr, element_size);
                 ptr = ptr.add(element_size);
+                written += 1;
+            }
+        }
+
+        // 3.1 less elements than reported: close the gap
+        if written < replace_len {
+            unsafe{
+                move_elements_at(
+                    any_vec_ptr,
+                    replace_end,
+                    self.start + written,
+                    elements_left
+                );
             }
         }
 
         // 4. restore len
         {
             let any_vec_raw = unsafe{any_vec_ptr.any_vec_raw_mut()};
-            any_vec_raw.len = new_len;
+            any_vec_raw.len = new_len - (replace_len - written);
         }
     }
 }
